@@ -176,6 +176,8 @@ def either(ctx, legacy, canonical, note="accepted in canonical form (equivalent 
         legacy(t1)
     except AnchorMissing:
         pass
+    except (IndexError, KeyError, TypeError, AttributeError) as e:     # the first formulation met a shape it does not know: it does not hold in that form
+        t1.bad("shape", "unrecognised-shape", "the first formulation of this rule does not apply to the extracted code: %r" % (e,))
     if not t1.failed():
         t1.commit()
         return True
@@ -189,5 +191,10 @@ def either(ctx, legacy, canonical, note="accepted in canonical form (equivalent 
     if not t2.failed() and any(o[0] == "ok" for o in t2.obs):
         t2.commit(note)
         return True
+    import os, sys
+    if os.environ.get("UEC_TRACE_EITHER"):
+        for o in t2.obs:
+            if o[0] == "bad":
+                sys.stderr.write("  [either: alternative formulation failed] %s/%s: %s\n" % (o[1], o[2], str(o[3])[:400]))
     t1.commit()
     return False
